@@ -195,6 +195,11 @@ class MultiStepReplayBuffer(ReplayBuffer):
         super().add(n_step_data)
         return self.n_step_buffer[0]
 
+    def clear(self) -> None:
+        """Clear the buffer, including the pending n-step window."""
+        super().clear()
+        self.n_step_buffer.clear()
+
     def sample_from_indices(self, idxs: torch.Tensor) -> TensorDict:
         """Sample a batch of transitions from the buffer using the provided indices.
 
